@@ -71,7 +71,13 @@ def parseOp (toks : List String) : Option Op :=
 
 def stepLine (st : St) (line : String) : St × String :=
   let toks := (line.trimAscii.toString.splitOn " ").filter (· ≠ "")
+  -- `w=<client>`: a request of the concurrent phase; the model runs the clients' requests in the order
+  -- of the lines (one linearisation — C16_concurrent: the answers to a tenant do not depend on it)
+  let toks := match toks with
+    | t :: rest => if t.startsWith "w=" then rest else toks
+    | [] => toks
   match toks with
+  | ["storm", _] => (st, "ok")
   | ["variant", v] =>
     ({ st with cfg := { st.cfg with variant := if v == "pinned" then .pinned else .fixed } }, "ok")
   | "reset" :: rest =>
